@@ -47,3 +47,14 @@ Definition latched (f : framing) (st : ist) : ist :=
 Definition encs (f : framing) (l : list amsg) : bytes := flat_map (enc f) l.
 Fixpoint expect_from (f : framing) (idx : N) (l : list amsg) : list msg :=
   match l with [] => [] | a :: l' => expect f idx a :: expect_from f (idx + 1) l' end.
+
+(* ---- fresh iterator vs one that has already latched its framing *)
+(* the state with the latch of framing f set, everything else kept *)
+Definition latch (f : framing) (st : ist) : ist :=
+  {| i_index := i_index st; i_processed := i_processed st; i_skipped := i_skipped st;
+     i_det_storage := match f with Storage => true | Serial => i_det_storage st end;
+     i_det_serial := match f with Storage => i_det_serial st | Serial => true end |}.
+(* the frame marker of the other framing *)
+Definition other_pat (f : framing) : bytes -> bool :=
+  match f with Storage => is_serial_pat | Serial => is_storage_pat end.
+Definition no_other_marker (f : framing) (s : bytes) : Prop := forall i, other_pat f (skipn i s) = false.
